@@ -1,6 +1,7 @@
 package main
 
 import (
+	"encoding/json"
 	"flag"
 	"fmt"
 	"os"
@@ -70,7 +71,11 @@ func main() {
 func rerun(rc *runConfig) int {
 	path := rc.rerun
 	if strings.HasSuffix(path, ".txt") {
-		path = strings.TrimSuffix(path, ".txt") + "_test.go"
+		base := strings.TrimSuffix(path, ".txt")
+		path = base + "_test.go"
+		if _, err := os.Stat(base + "_modular_test.go"); err == nil {
+			path = base + "_modular_test.go" // the replay that reproduced, if any, is the later one
+		}
 	}
 	src, err := os.ReadFile(path)
 	if err != nil {
@@ -87,7 +92,19 @@ func rerun(rc *runConfig) int {
 		fmt.Printf("%s is not a replay test\n", path)
 		return 2
 	}
-	out, failed := runReplayTest(rc.repo, path, name, filepath.Dir(path), strings.Contains(name, "lemma"))
+	// a modular replay also replaces the source file of the function (callees stubbed)
+	extra := map[string]string{}
+	if b, err := os.ReadFile(filepath.Join(filepath.Dir(path), "overlay_"+name+".json")); err == nil && strings.Contains(path, "_modular_test.go") {
+		var ov map[string]map[string]string
+		if json.Unmarshal(b, &ov) == nil {
+			for k, v := range ov["Replace"] {
+				if !strings.HasSuffix(k, "zz_limevc_replay_test.go") {
+					extra[k] = v
+				}
+			}
+		}
+	}
+	out, failed := runReplayTestWith(rc.repo, path, name, filepath.Dir(path), strings.Contains(name, "lemma"), extra)
 	fmt.Print(out)
 	if failed && strings.Contains(out, "REPLAY-VIOLATION") {
 		fmt.Printf("VIOLATION property=%s replay=%s (reproduced on the current tree)\n", rc.prop, rc.rerun)
